@@ -604,8 +604,8 @@ impl Property for P {
     }
     fn workloads(&self, tier: Tier) -> Vec<Workload> {
         vec![
-            Workload::new("flow-heads", tier.pick(20_000, 600_000), false, "random requests through Flow, one-shot + 2 schedules each"),
-            Workload::new("call-heads", tier.pick(5_000, 150_000), false, "random requests through the single-call API"),
+            Workload::new("flow-heads", tier.pick(20_000, 5_000_000), false, "random requests through Flow, one-shot + 2 schedules each"),
+            Workload::new("call-heads", tier.pick(5_000, 1_500_000), false, "random requests through the single-call API"),
         ]
     }
     fn run_case(&self, wl: &str, idx: u64, seed: u64, rec: &mut Rec) {
